@@ -2,6 +2,7 @@
 mod common;
 mod c04;
 mod c13;
+mod c14;
 
 fn main() {
     let args: Vec<String> = std::env::args().skip(1).collect();
@@ -14,6 +15,10 @@ fn main() {
         "c04-legacy" => c04::legacy(rest),
         "c13-replay" => c13::replay(rest),
         "c13-record" => c13::record(rest),
+        "c14-pad" => c14::pad(rest),
+        "c14-cose" => c14::cose(rest),
+        "c14-datahash" => c14::datahash(rest),
+        "c14-e2e" => c14::e2e(rest),
         _ => {
             eprintln!("unknown command {cmd}");
             std::process::exit(2);
